@@ -70,6 +70,7 @@ func verifReplayOne(t *testing.T, path string) {
 	for i := 0; i < tries; i++ {
 		verifFresh = map[string]int{}
 		verifObserved = nil
+		verifObsCnt = map[string]int{}
 		o := verifRunOnce(f, 3*time.Second)
 		fmt.Printf("VERIF-OUTCOME %s\n", o)
 		fmt.Printf("VERIF-OBSERVED %s\n", strings.Join(verifObserved, " "))
